@@ -21,7 +21,8 @@ RULE = ('valid generated document + one provably invalid fault: stray punctuatio
         'deleted / extra structural brace or bracket; unterminated string; column without type; unknown setting '
         'word; unknown index type / reference operator / action; malformed colour; leading / trailing garbage. '
         'every case is non-trivial; distinct by sha1 of (faulty text)')
-ASSUMPTIONS = ['word-like stray tokens are not in the catalogue: they are frequently valid DBML in context',
+ASSUMPTIONS = ['base documents carry quote-free comments (own-line and trailing, some ending in a backslash) placed before the fault is injected',
+               'word-like stray tokens are not in the catalogue: they are frequently valid DBML in context',
                'faults are placed between the writer\'s tokens, never inside a literal, name or type']
 KINDS = ['stray', 'del_struct', 'extra_struct', 'unterminated', 'no_type', 'unknown_setting', 'bad_index_type',
          'bad_operator', 'bad_action', 'bad_colour', 'garbage_end', 'garbage_start', 'truncate']
@@ -30,8 +31,34 @@ STRAY = ['@', '%', ';', '=', '!', '~', '^', '&', '|', '?', '$', '@@', '=;']
 SETTING_KINDS = {'column', 'index', 'enum_item', 'table_open', 'group_open', 'ref_short', 'ref_body', 'settings_cont'}
 
 
+COMMENTS = ['c', 'TODO', 'see C:\\schemas\\', 'ends with backslash \\', 'a {b} [c]', '}', ']', 'Table x {', 'x \\\\', 'é', '-- sql', 'note: x']
+
+
 def _real_lines(lines):
-    return [i for i, l in enumerate(lines) if l.toks]
+    return [i for i, l in enumerate(lines) if l.toks and l.kind != 'comment']
+
+
+def _ntoks(line):
+    """number of tokens before a trailing comment token"""
+    return len([t for t in line.toks if t.cls != 'comment'])
+
+
+@st.composite
+def with_comments(draw, lines):
+    """The document is a sequence of elements, comments and blank lines: sprinkle quote-free comments over the
+    (still valid) document before the fault is injected -- own-line // and /* */ comments and trailing ones."""
+    lines = copy.deepcopy(lines)
+    for _ in range(draw(st.integers(0, 4))):
+        c = draw(st.sampled_from(COMMENTS))
+        form = draw(st.sampled_from(['//', '// ', '/*']))
+        text = f'/*{c}*/' if form == '/*' else form + c
+        i = draw(st.integers(0, len(lines)))
+        if i < len(lines) and lines[i].toks and lines[i].kind != 'comment' and not any(t.cls == 'comment' for t in lines[i].toks) \
+                and draw(st.booleans()):
+            lines[i].toks.append(Tok(text, 'comment', ' '))
+        else:
+            lines.insert(i, Line('comment', (), [Tok(text, 'comment')], draw(st.sampled_from(['', '  ']))))
+    return lines
 
 
 @st.composite
@@ -48,7 +75,7 @@ def fault(draw, lines, eol='\n'):
 
     if kind == 'stray':
         i = draw(st.sampled_from(real))
-        j = draw(st.integers(0, len(lines[i].toks)))
+        j = draw(st.integers(0, _ntoks(lines[i])))
         lines[i].toks.insert(j, Tok(draw(st.sampled_from(STRAY)), 'fault', ' '))
         if j + 1 < len(lines[i].toks) and lines[i].toks[j + 1].pre == '':
             lines[i].toks[j + 1].pre = ' '
@@ -60,9 +87,11 @@ def fault(draw, lines, eol='\n'):
         del lines[i].toks[j]
         if not lines[i].toks:
             lines[i].kind = 'blank'
+        elif _ntoks(lines[i]) == 0:
+            lines[i].kind = 'comment'
     elif kind == 'extra_struct':
         i = draw(st.sampled_from(real))
-        j = draw(st.integers(0, len(lines[i].toks)))
+        j = draw(st.integers(0, _ntoks(lines[i])))
         lines[i].toks.insert(j, Tok(draw(st.sampled_from(['{', '}', '[', ']'])), 'fault', ' '))
         if j + 1 < len(lines[i].toks) and lines[i].toks[j + 1].pre == '':
             lines[i].toks[j + 1].pre = ' '
@@ -160,6 +189,8 @@ def judge(kind, text, props, case):
 @st.composite
 def cases(draw, feats, sizes):
     s, text, lines = draw(gen.documents(feats, sizes, min_tables=1))
+    lines = draw(with_comments(lines))
+    text = render(lines, '\n', True)
     f = draw(fault(lines))
     return s, text, f
 
